@@ -85,13 +85,22 @@ def run(ctx):
             samples.extend(summ.get("samples", [])[:2])
         elif name == "straddle":
             samples.extend([x for x in summ.get("samples", []) if "straddle" in x][:1])
-        for f, events, fails in D.validate(ctx, "ZDetTrace", "ZDetTrace.cfg", files, name, "log"):
+        for f, events, fails, known in D.validate(ctx, "ZDetTrace", "ZDetTrace.cfg", files, name, "log"):
             stats["events"] += len(events)
+            for line, exp, seg in known:
+                # reply values the driver marked as known-divergent (DEL on an HLL key): they must
+                # be integer counts on both sides, everything else about the run stays strict
+                e = seg[-1]
+                stats["known_divergent_replies"] = stats.get("known_divergent_replies", 0) + 1
+                ok_shape = str(e.get("r", "")).startswith("i:") and exp.lstrip('"').startswith("i:") and e.get("kd") == "hll-del"
+                sig = {"stage": label, "class": "hll-cache" if ok_shape else "other", "kind": "del-reply"}
+                V.report_failure(ctx, sig, "log %s: reply of DEL on a HyperLogLog key differs between runs: %s vs first seen %s" % (
+                    seg[0].get("id"), json.dumps(e)[:200], exp[:80]), files=[], script={"detsim": args, "stage": name})
             if not fails and name == "general" and len(events) > 500:
                 good_files.append(f)
             for line, exp, seg in fails:
                 stats["mismatches"] += 1
-                sig = D.classify_det(seg, label)
+                sig = D.classify_det(seg, label, exp)
                 runs = [x for x in seg if x.get("ev") == "run"]
                 what = "log %s (%s, %s): run under %s: %s differs from the first run of the same log: observed %s, first seen %s" % (
                     seg[0].get("id"), seg[0].get("kind"), seg[0].get("policy"),
@@ -133,7 +142,7 @@ def run(ctx):
         dump_keys_compared=stats["dumpkeys"], events_validated=stats["events"],
         checkpoint_restores=stats["restores"], reopens=stats["reopens"],
         straddle_logs=stats["straddle_logs"], straddle_rounds_too_late=stats["straddle_late"],
-        mismatching_runs=stats["mismatches"], panics=stats["panics"], hung_runs=stats.get("hung", 0),
+        mismatching_runs=stats["mismatches"], known_divergent_replies=stats.get("known_divergent_replies", 0), panics=stats["panics"], hung_runs=stats.get("hung", 0),
         commands_in_logs=stats["commands"], driver_runs=stats["driver_runs"],
         rule="every seeded log (KV, bitmap, HLL, JSON, hash, list, set, zset/geo and TTL commands, adversarially close "
              "timestamps, multi-command entries) is applied to fresh real state machines under 9-20 execution "
@@ -149,13 +158,16 @@ def run(ctx):
         "this path",
         "mem and pebble are the deciding engines; rocksdb (shim) is not run",
         "the background local-deletion scanner (documented exception of the property) fires every 300 s; no state machine of a run lives that long, so it never acts",
-        "raw dumps leave out the table that holds HyperLogLog keys (their stored form depends on when the in-memory "
-        "HLL write cache is flushed); HLL keys are compared through PFCOUNT",
+        "every run ends with a checkpoint (flushes the HLL write cache) before the dump; stored HyperLogLog records are "
+        "compared without their cached-count and load-timestamp fields (sketch bytes strict), plus PFCOUNT and EXISTS",
         "logical dumps are taken only for logs whose expiry instants are >= 1 h away from the wall clock; straddle "
         "runs are compared through replies and raw engine content",
-        "the known finding C07-hll-write-cache is kept out of the general corpus (only PFADD on HLL keys) and has "
-        "its own isolate stage",
-        "the known finding C07-batch-abort-on-apply-error is kept out of the general corpus (no batchable command "
-        "that fails in its apply handler) and has its own isolate stage; the repaired HCLEAR finding keeps its "
-        "isolate stage as a regression test",
+        "open finding C07-hll-write-cache, narrowed: the general corpus issues PFADD, DEL and SET on HLL keys; kept "
+        "out is only a SET on a key PFADDed earlier in the log without a DEL in between (stored data diverges on the "
+        "unchanged tree); the REPLY VALUE of DEL on an HLL key is marked by the driver (kd) and reported as the known "
+        "finding without ending the run; stored data (after a final checkpoint that flushes the cache) stays strict",
+        "open finding C07-batch-abort-on-apply-error, narrowed: batchable commands that fail in their apply handler "
+        "are in the general corpus, but only directly after a non-batchable command (first of their write batch "
+        "under every grouping); a failing one WITH batch predecessors is produced by the isolate stage only; the "
+        "repaired HCLEAR finding keeps its isolate stage as a regression test",
     ])
